@@ -33,7 +33,7 @@ impl Wk {
             .map_err(|e| Mach(format!("spawn worker: {}", e)))?;
         let stdin = child.stdin.take().unwrap();
         let stdout = child.stdout.take().unwrap();
-        Ok(Wk { child, stdin, stdout, buf: Vec::new(), name: name.into(), timeout_ms: 20_000 })
+        Ok(Wk { child, stdin, stdout, buf: Vec::new(), name: name.into(), timeout_ms: 180_000 })
     }
 
     /// Standard pair: K = kernel as is, E = openat2 answers ENOSYS (selects the emulated resolvers for the whole process).
